@@ -706,6 +706,7 @@ func (e *Env) hasType(v Value, t types.Type) *Term {
 }
 
 func typeString(t types.Type) string {
+	t = types.Unalias(t)
 	s := types.TypeString(t, func(p *types.Package) string { return shortPkg(p.Path()) })
 	r := strings.NewReplacer(" ", "_", "{", "(", "}", ")", "*", "ptr_", "[", "(", "]", ")", ";", ",", "|", "/")
 	return r.Replace(s)
